@@ -15,7 +15,7 @@ import (
 func init() {
 	register("C04",
 		"exactness of the Julian-Day formula and of its floating-point inverse, additivity of NextDay over month lengths, minute/hour carries, and every other numeric agreement between the stepping functions and the day count.",
-		r04_1, r04_2, r04_3, r04_4, r04_5, r04_6, r04_7, r07_3)
+		r04_1, r04_2, r04_3, r04_4, r04_5, r04_6, r04_7, r04_8, r07_3)
 }
 
 var solarComponent = map[string]int{"Solar.year": 0, "Solar.month": 1, "Solar.day": 2, "Solar.hour": 3, "Solar.minute": 4, "Solar.second": 5}
@@ -355,15 +355,13 @@ func gapTableString(as []gapAction) string {
 
 func r04_2(c *Ctx, r *Report) {
 	const rule = "R04.2"
-	r.rule(rule, "The 1582 gap is described consistently. Every site guarded by year == 1582 && month == 10 is analysed by path enumeration with interval constraints on the day: NewSolar rejects exactly days 5..14; GetDaysInYear rejects 5..14 and subtracts 10 from 15..31; NextYear/NextMonth move 5..14 forward by 10; NextDay removes the 10 missing days before stepping and re-inserts them after (days > 4); GetDaysOfMonth returns 21 = 31-10, GetDaysOfYear 355 = 365-10; GetJulianDay's switch constant is 1582*372+10*31+15; NewSolarFromJulianDay's switch constant is the day number of 1582-10-15; IsLeapYear's Julian/Gregorian threshold lies in (1582, 1700].")
+	r.rule(rule, "The 1582 gap is described consistently. The two gap sites that contain loops are analysed by path enumeration with interval constraints on the day under their year == 1582 && month == 10 guards: GetDaysInYear rejects 5..14 and subtracts 10 from 15..31; NextDay removes the 10 missing days before stepping and re-inserts them after (days > 4). The loop-free sites (NewSolar, NextYear, NextMonth, GetDaysOfMonth, GetDaysOfYear, IsLeapYear) are decided as decision tables by R04.8; any other function with such a guard is unreviewed and fails. GetJulianDay's switch constant is 1582*372+10*31+15; NewSolarFromJulianDay's switch constant is the day number of 1582-10-15.")
 	expect := map[string][]string{
-		"calendar.NewSolar":            {"[5,14]:panic"},
-		"SolarUtil.GetDaysInYear":      {"[5,14]:panic [15,31]:-10"},
-		"calendar.(*Solar).NextYear":   {"[5,14]:+10"},
-		"calendar.(*Solar).NextMonth":  {"[5,14]:+10"},
-		"calendar.(*Solar).NextDay":    {"[5,31]:-10", "[5,31]:+10"},
-		"SolarUtil.GetDaysOfMonth":     {"[1,31]:return 21"},
+		"SolarUtil.GetDaysInYear":   {"[5,14]:panic [15,31]:-10"},
+		"calendar.(*Solar).NextDay": {"[5,31]:-10", "[5,31]:+10"},
 	}
+	// the loop-free gap sites are decided as decision tables by R04.8
+	byTable := map[string]bool{"calendar.NewSolar": true, "calendar.(*Solar).NextYear": true, "calendar.(*Solar).NextMonth": true, "SolarUtil.GetDaysOfMonth": true}
 	var names []string
 	for n := range expect {
 		names = append(names, n)
@@ -389,7 +387,7 @@ func r04_2(c *Ctx, r *Report) {
 	}
 	// any other function with such a guard is unreviewed
 	for _, fn := range c.Funcs {
-		if _, known := expect[fname(fn)]; known || isInit(fn) {
+		if _, known := expect[fname(fn)]; known || byTable[fname(fn)] || isInit(fn) {
 			continue
 		}
 		if len(gapRegions(fn)) > 0 {
@@ -398,25 +396,6 @@ func r04_2(c *Ctx, r *Report) {
 	}
 	// constants
 	hasConst := func(fn *ssa.Function, k float64) bool { return fn != nil && floatConstsOf(fn)[k] }
-	if fn := c.Fn(r, rule, "SolarUtil.GetDaysOfYear"); fn != nil {
-		okk := false
-		for _, b := range fn.Blocks {
-			iff, isIf := b.Instrs[len(b.Instrs)-1].(*ssa.If)
-			if !isIf {
-				continue
-			}
-			if _, ok := isEqConst(iff.Cond, 1582); ok {
-				for _, ins := range b.Succs[0].Instrs {
-					if ret, ok := ins.(*ssa.Return); ok && len(ret.Results) == 1 {
-						if k, ok := constInt(ret.Results[0]); ok && k == 355 {
-							okk = true
-						}
-					}
-				}
-			}
-		}
-		r.check(okk, rule, "SolarUtil.GetDaysOfYear returns 355 for 1582", c.fnPos(fn), "365 - 10 missing days")
-	}
 	if fn := c.Fn(r, rule, "SolarUtil.GetJulianDay"); fn != nil {
 		want := float64(1582*372 + 10*31 + 15)
 		r.check(hasConst(fn, want) && hasConst(fn, 372) && hasConst(fn, 31), rule, "SolarUtil.GetJulianDay switches to the Gregorian correction at 1582-10-15", c.fnPos(fn),
@@ -431,26 +410,7 @@ func r04_2(c *Ctx, r *Report) {
 		jdn := d + (153*mm+2)/5 + 365*yy + yy/4 - yy/100 + yy/400 - 32045
 		r.check(hasConst(fn, float64(jdn)), rule, "calendar.NewSolarFromJulianDay switches to the Gregorian correction at the day number of 1582-10-15", c.fnPos(fn), fmt.Sprintf("constant %d", jdn))
 	}
-	if fn := c.Fn(r, rule, "SolarUtil.IsLeapYear"); fn != nil {
-		okk := false
-		detail := "no comparison 'year < T' found"
-		for _, b := range fn.Blocks {
-			for _, ins := range b.Instrs {
-				if bo, ok := ins.(*ssa.BinOp); ok && (bo.Op == token.LSS || bo.Op == token.LEQ || bo.Op == token.GTR || bo.Op == token.GEQ) {
-					if k, ok := constInt(bo.Y); ok && k > 1000 {
-						t := k
-						if bo.Op == token.LEQ {
-							t = k + 1
-						}
-						detail = fmt.Sprintf("Julian leap rule for year < %d", t)
-						okk = t > 1582 && t <= 1700
-					}
-				}
-			}
-		}
-		r.check(okk, rule, "SolarUtil.IsLeapYear switches leap rules between 1583 and 1700", c.fnPos(fn), detail+" (no year divisible by 100 but not by 400 lies in 1583..1699, so any threshold there is equivalent)")
-	}
-	r.floor(rule, 10)
+	r.floor(rule, 4)
 }
 
 // ---------- R04.3 delegation ----------
